@@ -115,6 +115,54 @@ def deep_family(tier, out):
     return {"runs": len(jobs), "collections_executed": ncoll}, bad
 
 
+HELD = """class Probe {{ public qubit q; public int id; public constructor(int i) -> Probe {{ this.id = i; }}
+  public destructor() -> void {{ echo("probe " + id + " released"); }} }}
+class Link {{ public Link peer; public Probe held; public constructor() -> Link {{ this.peer = null; this.held = null; }} }}
+class Pad {{ public int v; public constructor(int x) -> Pad {{ this.v = x; }} }}
+function ring(int i) -> Link {{ Link a = new Link(); Link b = new Link(); a.held = new Probe(i); a.peer = b; b.peer = a; return a; }}
+function main() -> void {{
+  Link keep = ring(7);
+  int s = 0;
+  for (int i = 0; i < {allocs}; i = i + 1) {{ Pad t = new Pad(i); s = s + t.v; }}
+  {work}
+  echo(s);
+  keep = null;
+  {tail}
+}}
+"""
+
+
+def held_by_garbage(tier, out):
+    """an object with a qubit field and an observable destructor whose only owner is a cycle of plain objects that becomes garbage
+    by plain assignment near the end of main: the reference has no collector (the cycle is never reclaimed), so what must hold is
+    that every schedule - each of them ends with the collection every run performs at its end - prints the same output and
+    releases the same objects"""
+    n = bad = 0
+    jobs, meta = [], {}
+    for allocs in (0, 5, 16, 17, 18, 40):
+        for work in ("", "for (int j = 0; j < 30; j = j + 1) { s = s + 1; }"):
+            for tail in ("", "echo(\"after\");", "Pad last = new Pad(1); echo(last.v);"):
+                src = HELD.format(allocs=allocs, work=work, tail=tail)
+                k0 = len(jobs)
+                for sched in ("none", "pressure", "all", "at:3", "at:%d" % (allocs * 2 + 6), "at:%d,%d" % (allocs + 4, allocs * 2 + 9)):
+                    meta[len(jobs)] = (k0, sched, src)
+                    jobs.append({"id": len(jobs), "src": src, "gc": sched, "timeout_ms": 60000})
+    res = runner.run_jobs(jobs)
+    for jid, (k0, sched, src) in meta.items():
+        n += 1
+        a, b = res[k0], res[jid]
+        oa = sorted(a["shots"][0]["echo"]) if a.get("shots") else a["status"]
+        ob = sorted(b["shots"][0]["echo"]) if b.get("shots") else b["status"]
+        # the destructor's line may come before or after the last lines of main (that is the collector's timing); the SET of lines
+        # and the exit status may not differ
+        if a["status"] != b["status"] or oa != ob:
+            bad += 1
+            if bad <= 3:
+                what = "an object held only by garbage: schedule %s prints %s, schedule none prints %s" % (sched, b["shots"][0]["echo"] if b.get("shots") else ob, a["shots"][0]["echo"] if a.get("shots") else oa)
+                out.violation(what, {"what": what, "schedule": sched, "program": src, "interpreter": b, "without_intermediate_collections": a}, "held%d" % jid)
+    return {"runs": n}, bad
+
+
 def part_a(tier, seed, out):
     # 1. the protocol itself (safety, liveness under fairness, every subset of boundaries reachable)
     metas = []
@@ -249,6 +297,9 @@ def run(tier, seed):
     dp, nd = deep_family(tier, out)
     nb += nd
     b["deep_structures"] = dp
+    hp, nh = held_by_garbage(tier, out)
+    nb += nh
+    b["held_by_garbage"] = hp
     cov = {"states": sum(m["distinct"] for m in a["protocol_models"]) + a["trace_states"],
            "transitions": sum(m["generated"] for m in a["protocol_models"]),
            "traces_validated_against_impl": a["logs_validated"],
